@@ -3,6 +3,12 @@
 (*   component kind x child site of that kind x reference-graph shape x path spelling x    *)
 (*   position of the root's reference x load entry point.                                  *)
 (* The state is the universe; there are no transitions.                                    *)
+(* Round 6 added: objects carrying two child sites at once (SitePairs), pointers to inline  *)
+(* objects below a component of any collection (Deep, InlContainers: the deepcomp and       *)
+(* deepback families), near-miss keys (NearMisses: templated paths, status keys, names),    *)
+(* definitions outside the typed structure local to a whole-file element (DefRef: the       *)
+(* wholedef family, extdef, rootdef), cycles through every schema site, and histories of    *)
+(* one Loader (HistoryEntries).                                                             *)
 EXTENDS Layout, Json, CSV
 
 CONSTANT Tier
